@@ -300,8 +300,18 @@ def bounded_plain_roundtrip(tier, seed):
                 # dictionaries with keys that are not strings, values of one type and of several
                 ({1: 'one', 2: 'two'}, {1: 'one', 2: 'two'}), ({1: 'one', 2: 2}, {1: 'one', 2: 2}), ({True: 1.5, False: 'x'}, {True: 1.5, False: 'x'}),
                 ({_m.ObjectPath('/a'): 1, _m.ObjectPath('/b'): 's'}, {'/a': 1, '/b': 's'}), ({_m.Byte(1): [1], _m.Byte(2): 'b'}, {1: [1], 2: 'b'})]
+    # every ordered pair of small values - falsy ones included - as the two values of a dictionary and the members of a list: the inference
+    # looks at each of them, in either order (containers of one Python class with different contents are outside the claim: first-element rule)
+    atoms = [0, 7, 0.0, 1.5, '', 'x', False, True, [], [1], _m.UInt32(0), _m.Byte(0), {}, _m.ObjectPath('/'), bytearray()]
+    plain_of = lambda v: [plain_of(x) for x in v] if isinstance(v, (list, tuple, bytearray)) else v
+    for a_ in atoms:
+        for b_ in atoms:
+            if type(a_) is type(b_) and isinstance(a_, (list, dict, bytearray)) and a_ != b_:
+                continue
+            inferred.append(({'k0': a_, 'k1': b_}, {'k0': plain_of(a_), 'k1': plain_of(b_)}))
+            inferred.append(([a_, b_, a_], [plain_of(a_), plain_of(b_), plain_of(a_)]))
     for pyv, want in inferred * 2:
-        for off in (0, 1, 4):
+        for off in ((0, 1, 4) if len(repr(pyv)) < 40 or 'k0' not in repr(pyv) else (0, 3)):
             for le in (True, False):
                 n += 1
                 try:
